@@ -323,13 +323,17 @@ func (d *driver) runValid(stream string, gd *gdef, r *hx.Rand, seed int64, emit 
 
 // ---- legacy definitions -------------------------------------------------------------------------------------
 
-func (d *driver) runLegacy(ld *ldef, seed int64, emit bool) {
+// edge: the definition carries edge values; the legacy reader may refuse it
+func (d *driver) runLegacy(ld *ldef, seed int64, emit bool, edge []string) {
 	res := d.res
 	x, err := json.Marshal(ld.Flow)
 	if err != nil {
 		panic(err)
 	}
 	meta := map[string]any{"nodes": len(ld.Nodes)}
+	if edge != nil {
+		meta["edge"] = edge
+	}
 	fail := func(class, detail string) { res.Fail(class, failInput("legacy", x, meta), detail) }
 	var out []byte
 	var merr error
@@ -340,6 +344,17 @@ func (d *driver) runLegacy(ld *ldef, seed int64, emit bool) {
 	if pan != "" {
 		fail("panic:"+pan, "panic while migrating a legacy definition")
 		return
+	}
+	if merr != nil && edge != nil {
+		res.Dist("legacy_edge=rejected-by-legacy-reader")
+		res.Eval(string(x), false)
+		return
+	}
+	if edge != nil {
+		res.Dist("legacy_edge=accepted")
+		for _, h := range edge {
+			res.Dist("legacy_edge_member=" + strings.SplitN(h, ":", 2)[0])
+		}
 	}
 	if merr != nil {
 		fail("legacy-definition-rejected", "MigrateToLatest returned an error for a legacy definition composed from the suite's testdata")
@@ -410,7 +425,14 @@ func main() {
 	rl := r.Fork("legacy")
 	for i := 0; i < tierCount(o, 50, 3000); i++ {
 		ri := rl.Fork(fmt.Sprint(i))
-		d.runLegacy(genLegacy(ri, pools), int64(o.Seed)*7919+int64(i), true)
+		d.runLegacy(genLegacy(ri, pools), int64(o.Seed)*7919+int64(i), true, nil)
+	}
+	// legacy definitions with edge values: accepted by the legacy reader => the result must load
+	re := r.Fork("legacy-edge")
+	for i := 0; i < tierCount(o, 400, 20000); i++ {
+		ri := re.Fork(fmt.Sprint(i))
+		ld, how := genLegacyEdge(ri, pools)
+		d.runLegacy(ld, int64(o.Seed)*104729+int64(i), i%8 == 0, how)
 	}
 	d.flushLeg()
 
@@ -498,7 +520,7 @@ func runOne(d *driver, stream string, def []byte) {
 			ld := &ldef{Flow: f}
 			g := legacyGraphOf(f)
 			ld.Nodes = g.Nodes
-			d.runLegacy(ld, 1, true)
+			d.runLegacy(ld, 1, true, []string{"replay"})
 			d.flushLeg()
 			return
 		}
